@@ -184,7 +184,10 @@ pub fn judge(c: &Case, outs: &[Vec<Tok>]) -> Vec<String> {
         let out = match outs.get(k) { Some(o) => o, None => continue };
         let mut p2 = 0;
         let rep = match V::dec(out, &mut p2) { Some(r) => r, None => continue };
-        let a = match bulks(&req) { Some(a) if !a.is_empty() => a, _ => continue };
+        let a = match bulks(&req) { Some(a) if !a.is_empty() => a, _ => {
+            // a non-bulk argument: the reference cannot follow what the command did
+            if !matches!(rep, V::Error(_)) { for e in db.values_mut() { e.known = false; for g in e.groups.values_mut() { g.uncertain = true; } } }
+            continue } };
         let name = a[0].to_ascii_uppercase();
         let up = |x: &Vec<u8>| x.to_ascii_uppercase();
         let mut fail = |what: String| fails.push(format!("FAIL case={} op={} {}", c.id, k, what));
